@@ -93,13 +93,18 @@ OnlyDeclared(n) == /\ \E s \in Scopes : "gdecl" \in uses[s][n]
                    /\ \A s \in Scopes : MHome(s, n) = 1 => uses[s][n] \subseteq {"gdecl", "load"}
                    /\ \A c \in Scopes : "walrus" \in uses[c][n] => MHomeW(c, n) # 1
 
+\* util.arg_rename_in_place: the first parameter of a function defined directly in a class body (self / cls) is renamed in place;
+\* the documentation gives that name up.  Every other parameter keeps its spelling in the signature.
+FirstParam(s) == IF "param" \in uses[s]["x"] THEN "x" ELSE "y"
+InPlace(s, n) == kind[s] = "f" /\ kind[par[s]] = "c" /\ "param" \in uses[s][n] /\ n = FirstParam(s)
+
 Pinned(b) == LET h == b[1] n == b[2] IN
     \/ tainted
     \/ kind[h] = "c"                                                    \* becomes a class attribute
     \/ ~MBindsAt(h, n)                                                  \* unresolved: created pinned at module level
     \/ (h = 1 /\ (~renameGlobals \/ n \in presG))
     \/ (h # 1 /\ (~renameLocals \/ n \in presL))
-    \/ \E s \in Scopes : "param" \in uses[s][n] /\ MHome(s, n) = h      \* parameters keep their spelling (callable by keyword; lambda)
+    \/ \E s \in Scopes : "param" \in uses[s][n] /\ MHome(s, n) = h /\ ~InPlace(s, n)     \* callable by keyword (and lambda parameters)
     \/ \E s \in Scopes : kind[s] = "c" /\ "store" \in uses[s][n] /\ NonlocalName(s, n) /\ MHome(s, n) = h
     \/ (h = 1 /\ \E s \in Scopes : kind[s] = "c" /\ "store" \in uses[s][n] /\ NonlocalName(s, n))      \* repair of D1
     \/ (h = 1 /\ OnlyDeclared(n))                                                                    \* repair of D16
@@ -192,7 +197,7 @@ StaysCompilable == pc = "done" => Compilable(par, kind, OutUses, Scopes, OutName
 \* without rename_globals every module-level binding keeps its spelling
 InterfaceKept == pc = "done" =>
     /\ \A o \in LiveOcc : (InB(o)[1][1] = "L" /\ kind[InB(o)[1][2]] = "c") => OutSp(o) = o[2]
-    /\ \A s \in Scopes, n \in Names : "param" \in uses[s][n] => Sp(s, n) = n
+    /\ \A s \in Scopes, n \in Names : ("param" \in uses[s][n] /\ ~InPlace(s, n)) => Sp(s, n) = n
     /\ \A o \in LiveOcc : (InB(o)[1][1] = "G" /\ ~renameGlobals) => OutSp(o) = o[2]
 \* C09: a tainted module keeps every spelling
 Frozen == (pc = "done" /\ tainted) => \A o \in LiveOcc : OutSp(o) = o[2]
